@@ -1062,7 +1062,7 @@ def unit_init(source, cfgname, extra_steps=2):
     nworld = d.nworld
     an, sn = cfg["an"], cfg["sn"]
     K = max(an, sn) + extra_steps
-    ctx.encode(H.read_ctrl_delayed, H.insert_ctrl_history, H.apply_sensor_delay, H._read_ctrl_delayed_kernel, H._insert_ctrl_history_kernel, H._apply_sensor_delay_kernel, H._insert_sensor_history_stage)
+    ctx.encode(H.read_ctrl, H.read_sensor, H.read_ctrl_delayed, H.insert_ctrl_history, H.apply_sensor_delay, H._read_ctrl_delayed_kernel, H._insert_ctrl_history_kernel, H._apply_sensor_delay_kernel, H._insert_sensor_history_stage)
     ctx.bound(nworld=nworld, steps=K, config=cfgname, source=source, note="k <= n+2 steps; ctrl and fresh sensor values symbolic per step and world, |value| <= 1; times k*timestep")
     ctx.assume("the history-related host functions are run in the order in which the real step() launches their kernels (F7 launch trace of the real step())", "the delayed values are compared with the ideal delay line up to 1e-4 (float32 copies of MuJoCo's initial sample times)")
     order = history_order(m, d)
@@ -1077,7 +1077,7 @@ def unit_init(source, cfgname, extra_steps=2):
     nu, nsd = int(mjm.nu), int(mjm.nsensordata)
     U = [[z3.Real(f"u{k}_w{w}") for w in range(nworld)] for k in range(K)]
     Q = [[z3.Real(f"q{k}_w{w}") for w in range(nworld)] for k in range(K)]
-    got_c, got_s = [], []
+    got_c, got_s, pub_c, pub_s = [], [], [], []
     t0 = float(d.time.numpy()[0])
     with host.HostRun(mode="exec") as hr:
       for k in range(K):
@@ -1086,6 +1086,13 @@ def unit_init(source, cfgname, extra_steps=2):
           time_c.d[0][w] = t
           sd_c.d[0][w * nsd + 0] = Q[k][w]
           ctrl_c.d[0][w * nu + 0] = U[k][w]
+        # public API on the same state: read_ctrl / read_sensor at time = Data.time with the model's interpolation
+        pc = host.sym_array(f"pub_ctrl{k}", (nworld,), float, init=np.zeros((nworld,)))
+        H.read_ctrl(m, d2, 0, d2.time, -1, pc)
+        pub_c.append([pc.ref.cell.d[0][w] for w in range(nworld)])
+        ps = host.sym_array(f"pub_sens{k}", (nworld, 1), float, init=np.zeros((nworld, 1)))
+        H.read_sensor(m, d2, 0, d2.time, -1, ps)
+        pub_s.append([ps.ref.cell.d[0][w] for w in range(nworld)])
         # the history-related operations of one step(), in the order in which the real step() launches them
         for op in order:
           if op == "_apply_sensor_delay_kernel":
@@ -1121,11 +1128,58 @@ def unit_init(source, cfgname, extra_steps=2):
         names = {f"u{j}": U[j][w] for j in range(K)}
         names.update({f"q{j}": Q[j][w] for j in range(K)})
         rp = init_replay(ctx, source, cfgname, K, U, Q, w)
+        if k < len(got_c) and adelay != 0:
+          ctx.prove(sess, f"public-read_ctrl@step{k}/w{w}", cmp("==", pub_c[k][w], got_c[k][w]), names=names, replay=public_replay(ctx, source, cfgname, K, U, Q, w), desc=f"read_ctrl(m, d, 0, d.time, -1) differs from the delayed ctrl that step() applies (step {k})")
+        if k < len(got_s) and sdelay > 0:
+          ctx.prove(sess, f"public-read_sensor@step{k}/w{w}", cmp("==", pub_s[k][w], got_s[k][w]), names=names, replay=public_replay(ctx, source, cfgname, K, U, Q, w), desc=f"read_sensor(m, d, 0, d.time, -1) differs from the delayed sensor value that step() reports (step {k})")
         for what, g, e in (("ctrl", got_c[k][w], want_c), ("sensor", got_s[k][w], want_s)):
           diff = arith("-", g, e)
           ctx.prove(sess, f"{what}@step{k}/w{w}", And(cmp("<=", diff, tol), cmp(">=", diff, -tol)), names=names, replay=rp, desc=f"Data from {source} ({cfgname}): the delayed {what} at step {k} differs from the ideal delay line initialised as MuJoCo does (samples at -(n-i)*dt with value 0)")
 
   return (f"init/{source}/{cfgname}", run)
+
+
+def public_replay(ctx, source, cfgname, K, U, Q, w):
+  """mjw.read_ctrl / read_sensor (time = d.time, interp = -1) before every step vs mujoco.mj_readCtrl / mj_readSensor and vs
+  the delayed values the step then applies / reports"""
+
+  def _rp(model):
+    import mujoco
+
+    import mujoco_warp as mjw
+
+    cfg = CONFIGS[cfgname]
+    us = [float(kh.mval(model, U[k][w])) for k in range(K)]
+    qs = [float(kh.mval(model, Q[k][w])) for k in range(K)]
+    mjm, m, d = make_source("put_data", cfg, nworld=1)
+    mjd = mujoco.MjData(mjm)
+    rows, bad = [], False
+    for k in range(K):
+      d.qpos.fill_(qs[k])
+      d.ctrl.fill_(us[k])
+      mjd.qpos[0], mjd.ctrl[0] = qs[k], us[k]
+      rc, rs = wp.zeros(1, dtype=float), wp.zeros((1, 1), dtype=float)
+      mjw.read_ctrl(m, d, 0, d.time, -1, rc)
+      mjw.read_sensor(m, d, 0, d.time, -1, rs)
+      mc = float(mujoco.mj_readCtrl(mjm, mjd, 0, mjd.time, -1))
+      res = np.zeros(1)
+      r = mujoco.mj_readSensor(mjm, mjd, 0, mjd.time, res, -1)
+      ms = float(res[0] if r is None else np.asarray(r).reshape(-1)[0])
+      mjw.step(m, d)
+      mujoco.mj_step(mjm, mjd)
+      row = {"step": k, "mjw.read_ctrl": float(rc.numpy()[0]), "mujoco.mj_readCtrl": mc, "applied (actuator_force)": float(d.actuator_force.numpy()[0, 0]), "mjw.read_sensor": float(rs.numpy()[0, 0]), "mujoco.mj_readSensor": ms, "reported sensordata": float(d.sensordata.numpy()[0, 0])}
+      rows.append(row)
+      if cfg["adelay"] and (abs(row["mjw.read_ctrl"] - mc) > 1e-4 or abs(row["mjw.read_ctrl"] - row["applied (actuator_force)"]) > 1e-4):
+        bad = True
+      if cfg["sdelay"] and (abs(row["mjw.read_sensor"] - ms) > 1e-4 or abs(row["mjw.read_sensor"] - row["reported sensordata"]) > 1e-4):
+        bad = True
+    os.makedirs(os.path.join(report.VERIF, "replays", PID), exist_ok=True)
+    path = os.path.join(report.VERIF, "replays", PID, f"{ctx.unit.replace('/', '_')}.public.json")
+    with open(path, "w") as f:
+      json.dump({"property": PID, "xml": xml_bmc(cfg), "ctrl": us, "qpos_overwritten": qs, "rows": rows, "how": "put_data of a fresh mjData; each step: set qpos, ctrl; read_ctrl/read_sensor(time = d.time, interp = -1); step"}, f, indent=1)
+    return bad, path
+
+  return _rp
 
 
 def init_replay(ctx, source, cfgname, K, U, Q, w):
